@@ -182,6 +182,10 @@ func (t *c08tr) assign(lhs string, tok token.Token, rhs ast.Expr, guard string) 
 		val = fmt.Sprintf("(wrap64 (%s - %s))", t.name(lhs), t.expr(rhs))
 	case token.MUL_ASSIGN:
 		val = fmt.Sprintf("(wrap64 (%s * %s))", t.name(lhs), t.expr(rhs))
+	case token.QUO_ASSIGN:
+		val = fmt.Sprintf("(goDiv %s %s)", t.name(lhs), t.expr(rhs))
+	case token.REM_ASSIGN:
+		val = fmt.Sprintf("(goMod %s %s)", t.name(lhs), t.expr(rhs))
 	default:
 		t.fail("assignment operator " + tok.String())
 		return
@@ -1066,6 +1070,210 @@ func init() {
 				sort.Strings(idx)
 			}
 			emitStrs("compileRuneAccesses", "`Compile`: every index / slice expression on `runes` (sorted)", idx, fd != nil)
+		}
+
+		// ---- loops: the guard and the body of a `for` become step functions, so that "the loop returns" is a
+		// theorem about the code's own condition and assignments (Props/C08 `expbucket_terminates`,
+		// `range_counter_safe`, `for_counter_safe`) and not only a watchdog observation.
+		const common = "pkg/expressions/stdlib/funcsCommon.go"
+		// c08Loops: every `for` statement inside the statements (function literals are entered: the loops of
+		// interest live in the run-time closure)
+		c08Loops := func(body []ast.Stmt) []*ast.ForStmt {
+			var out []*ast.ForStmt
+			for _, s := range body {
+				ast.Inspect(s, func(n ast.Node) bool {
+					if f, ok := n.(*ast.ForStmt); ok {
+						out = append(out, f)
+					}
+					return true
+				})
+			}
+			return out
+		}
+		// c08PlainBody: the loop body consists of simple assignments only (no break / continue / return /
+		// nested control flow), so that "one round" is exactly the translated step
+		c08PlainBody := func(b *ast.BlockStmt) bool {
+			for _, s := range b.List {
+				switch v := s.(type) {
+				case *ast.AssignStmt:
+					if len(v.Lhs) != 1 || len(v.Rhs) != 1 {
+						return false
+					}
+					if _, ok := v.Lhs[0].(*ast.Ident); !ok {
+						return false
+					}
+				case *ast.IncDecStmt:
+				default:
+					return false
+				}
+			}
+			return true
+		}
+		{
+			c.Fingerprint(common, "kfExpBucket")
+			fd := c.Func(common, "kfExpBucket")
+			body := c08Closure(fd)
+			loops := c08Loops(body)
+			tC := newC08tr(c, []string{"val", "bucket"}, nil)
+			tS := newC08tr(c, []string{"val", "bucket"}, nil)
+			cond, step := "false", "(val, bucket)"
+			var shape []string
+			if len(loops) != 1 {
+				tC.fail(fmt.Sprintf("expected exactly one for loop in the closure of kfExpBucket, found %d", len(loops)))
+				tS.fail(tC.why)
+			} else {
+				loop := loops[0]
+				if loop.Init != nil || loop.Post != nil || loop.Cond == nil {
+					tC.fail("loop header of kfExpBucket is not `for <cond>`")
+					tS.fail(tC.why)
+				} else if !c08PlainBody(loop.Body) {
+					tC.fail("loop body of kfExpBucket is not a list of simple assignments")
+					tS.fail(tC.why)
+				} else {
+					cond = tC.cond(loop.Cond)
+					tS.stmts(loop.Body.List, map[string]bool{"val": true, "bucket": true}, "", nil)
+					if tS.ok {
+						step = fmt.Sprintf("(%s, %s)", tS.name("val"), tS.name("bucket"))
+					}
+				}
+				// what surrounds the loop: every assignment to the two variables, the condition of the
+				// enclosing `if`, the returned expressions
+				shape = append(shape, c.c08Assignments(body, "bucket")...)
+				shape = append(shape, c.c08Assignments(body, "val")...)
+				for _, s := range body {
+					ast.Inspect(s, func(n ast.Node) bool {
+						switch v := n.(type) {
+						case *ast.IfStmt:
+							for _, inner := range c08Loops(v.Body.List) {
+								if inner == loop {
+									shape = append(shape, "if "+c.Print(v.Cond)+" { … for "+c.Print(loop.Cond)+" }")
+								}
+							}
+						case *ast.ReturnStmt:
+							for _, r := range v.Results {
+								shape = append(shape, "return "+c.Print(r))
+							}
+						}
+						return true
+					})
+				}
+			}
+			emitDef("expBucketLoopCond", "`kfExpBucket`: the condition of the scaling loop", []string{"val", "bucket"}, "", "Bool", tC, cond)
+			emitDef("expBucketStep", "`kfExpBucket`: one round of the scaling loop (the new `val`, the new `bucket`)", []string{"val", "bucket"}, "", "Int × Int", tS, step)
+			emitStrs("expBucketShape", "`kfExpBucket`: every assignment to `bucket` and `val` in the closure, the `if` around the loop, the returns", shape, len(loops) == 1)
+		}
+		// ---- {@range}: loop condition, post statement, the overflow `break`, the iteration cap
+		{
+			fd := c.Func(rng, "kfArrayRange")
+			c.Fingerprint(rng, "kfArrayRange")
+			body := c08Closure(fd)
+			loops := c08Loops(body)
+			tC := newC08tr(c, []string{"i", "stop", "incr"}, nil)
+			tP := newC08tr(c, []string{"i", "incr"}, nil)
+			tO := newC08tr(c, []string{"i", "incr"}, nil)
+			tN := newC08tr(c, []string{"count"}, nil)
+			cond, post, ovf, cnt := "false", "i", "false", "false"
+			var shape []string
+			if len(loops) != 1 {
+				for _, t := range []*c08tr{tC, tP, tO, tN} {
+					t.fail(fmt.Sprintf("expected exactly one for loop in the closure of kfArrayRange, found %d", len(loops)))
+				}
+			} else {
+				loop := loops[0]
+				if loop.Cond == nil {
+					tC.fail("no loop condition")
+				} else {
+					cond = tC.cond(loop.Cond)
+				}
+				if as, ok := loop.Post.(*ast.AssignStmt); ok && len(as.Lhs) == 1 && len(as.Rhs) == 1 && c.Print(as.Lhs[0]) == "i" {
+					tP.assign("i", as.Tok, as.Rhs[0], "")
+					if tP.ok {
+						post = tP.name("i")
+					}
+				} else {
+					tP.fail("post statement of the @range loop")
+				}
+				if loop.Init != nil {
+					shape = append(shape, "init "+c.Print(loop.Init))
+				}
+				if mx, ok := IntLit(c.LocalConst(fd, "MAX_ITERATIONS")); ok {
+					tN.consts["MAX_ITERATIONS"] = fmt.Sprint(mx)
+				}
+				nBreak, nInf := 0, 0
+				for _, s := range loop.Body.List {
+					switch v := s.(type) {
+					case *ast.IfStmt:
+						if v.Init != nil || v.Else != nil || len(v.Body.List) != 1 {
+							shape = append(shape, "if "+c.Print(v.Cond))
+							continue
+						}
+						if br, ok := v.Body.List[0].(*ast.BranchStmt); ok && br.Tok == token.BREAK {
+							ovf = tO.cond(v.Cond)
+							nBreak++
+							shape = append(shape, "break-if")
+						} else if c.c08Returns(v, `"<INF>"`) {
+							cnt = tN.cond(v.Cond)
+							nInf++
+							shape = append(shape, "inf-if")
+						} else {
+							shape = append(shape, "if "+c.Print(v.Cond))
+						}
+					case *ast.IncDecStmt:
+						shape = append(shape, c.Print(v))
+					case *ast.AssignStmt:
+						shape = append(shape, c.Print(v))
+					case *ast.ExprStmt:
+						shape = append(shape, "call")
+					default:
+						shape = append(shape, fmt.Sprintf("%T", s))
+					}
+				}
+				if nBreak != 1 {
+					tO.fail("expected exactly one `if … { break }` in the @range loop")
+				}
+				if nInf != 1 {
+					tN.fail("expected exactly one `if … { return \"<INF>\" }` in the @range loop")
+				}
+			}
+			emitDef("rangeLoopCond", "`kfArrayRange`: the loop condition", []string{"i", "stop", "incr"}, "", "Bool", tC, cond)
+			emitDef("rangeStep", "`kfArrayRange`: the post statement of the loop (the next `i`)", []string{"i", "incr"}, "", "Int", tP, post)
+			emitDef("rangeOverflowBreak", "`kfArrayRange`: the condition of the `break` in front of the post statement", []string{"i", "incr"}, "", "Bool", tO, ovf)
+			emitDef("rangeCountGuard", "`kfArrayRange`: the condition under which the loop gives up (`<INF>`)", []string{"count"}, "", "Bool", tN, cnt)
+			emitStrs("rangeLoopShape", "`kfArrayRange`: the statements of the loop body in order (calls abbreviated)", shape, len(loops) == 1)
+		}
+		// ---- {@for}: the iteration cap on the counter
+		{
+			fd := c.Func(rng, "kfArrayFor")
+			c.Fingerprint(rng, "kfArrayFor")
+			body := c08Closure(fd)
+			loops := c08Loops(body)
+			tN := newC08tr(c, []string{"idx"}, nil)
+			cnt := "false"
+			var shape []string
+			if len(loops) != 1 {
+				tN.fail(fmt.Sprintf("expected exactly one for loop in the closure of kfArrayFor, found %d", len(loops)))
+			} else {
+				loop := loops[0]
+				if mx, ok := IntLit(c.LocalConst(fd, "MAX_ITERATIONS")); ok {
+					tN.consts["MAX_ITERATIONS"] = fmt.Sprint(mx)
+				}
+				if loop.Init != nil || loop.Cond != nil || loop.Post != nil {
+					tN.fail("the @for loop is not `for { … }`")
+				}
+				nInf := 0
+				for _, s := range loop.Body.List {
+					if v, ok := s.(*ast.IfStmt); ok && v.Init == nil && v.Else == nil && c.c08Returns(v, `"<INF>"`) {
+						cnt = tN.cond(v.Cond)
+						nInf++
+					}
+				}
+				if nInf != 1 {
+					tN.fail("expected exactly one `if … { return \"<INF>\" }` in the @for loop")
+				}
+				shape = append(shape, c.c08Assignments(body, "idx")...)
+			}
+			emitDef("forCountGuard", "`kfArrayFor`: the condition under which the loop gives up (`<INF>`)", []string{"idx"}, "", "Bool", tN, cnt)
+			emitStrs("forCounterShape", "`kfArrayFor`: every assignment to the round counter `idx`", shape, len(loops) == 1)
 		}
 
 		sb.WriteString("end Rare.Gen.C08\n")
